@@ -8,7 +8,9 @@ open Ber Gldap
 
 def octet (s : Bytes) : Node := .prim 0 4 s
 def int (tag : Nat) (i : Int) : Node := .prim 0 tag (encodeInteger i)
-def bool (b : Bool) : Node := .prim 0 1 [if b then 255 else 0]
+/-- BOOLEAN; `tt` is the octet the peer uses for TRUE (0xFF per RFC 4511, 0x01 in asn1-ber's
+    `NewBoolean`; any non-zero octet is TRUE in BER) -/
+def bool (tt : UInt8) (b : Bool) : Node := .prim 0 1 [if b then tt else 0]
 def seq (ks : List Node) : Node := .cons 0 16 ks
 def set (ks : List Node) : Node := .cons 0 17 ks
 
@@ -38,10 +40,10 @@ inductive CCtl where
   | msNotification | msShowDeleted | msServerLinkTTL
 
 /-- RFC 4511 4.1.11 Control ::= SEQUENCE { controlType, criticality DEFAULT FALSE, controlValue OPTIONAL } -/
-def encodeCtl : CCtl → Node
+def encodeCtl (tt : UInt8) : CCtl → Node
   | .generic oid crit ex v =>
-      seq ([octet oid] ++ (if crit || ex then [bool crit] else []) ++ (if v.isEmpty then [] else [octet v]))
-  | .manageDsaIT crit ex => seq ([octet oidManageDsaIT] ++ (if crit || ex then [bool crit] else []))
+      seq ([octet oid] ++ (if crit || ex then [bool tt crit] else []) ++ (if v.isEmpty then [] else [octet v]))
+  | .manageDsaIT crit ex => seq ([octet oidManageDsaIT] ++ (if crit || ex then [bool tt crit] else []))
   | .paging size cookie => seq [octet oidPaging, octet (ser (seq [int 2 size, octet cookie]))]
   | .beheraEmpty => seq [octet oidBehera]
   | .beheraExpire e => seq [octet oidBehera, octet (ser (seq [.cons 2 0 [.prim 2 0 (encodeInteger e)]]))]
@@ -88,23 +90,23 @@ inductive CReq where
   | delete (id : Int) (dn : Bytes) (ctls : List CCtl)
   | unbind (id : Int)
 
-def envelope (id : Int) (op : Node) (ctls : List CCtl) : Node :=
-  seq ([int 2 id, op] ++ (if ctls.isEmpty then [] else [.cons 2 0 (ctls.map encodeCtl)]))
+def envelope (tt : UInt8) (id : Int) (op : Node) (ctls : List CCtl) : Node :=
+  seq ([int 2 id, op] ++ (if ctls.isEmpty then [] else [.cons 2 0 (ctls.map (encodeCtl tt))]))
 
 def encodeChange (c : CChange) : Node := seq [int 10 c.op, seq [octet c.type, set (c.vals.map octet)]]
 def encodeAttr (a : CAttr) : Node := seq [octet a.type, set (a.vals.map octet)]
 
 /-- RFC 4511 LDAPMessage for each of the seven operations -/
-def clientEncode : CReq → Node
-  | .bind id dn pw ctls => envelope id (.cons 1 0 [int 2 3, octet dn, .prim 2 0 pw]) ctls
+def clientEncode (tt : UInt8) : CReq → Node
+  | .bind id dn pw ctls => envelope tt id (.cons 1 0 [int 2 3, octet dn, .prim 2 0 pw]) ctls
   | .search id base scope deref size time ty f attrs ctls =>
-      envelope id (.cons 1 3 [octet base, int 10 scope, int 10 deref, int 2 size, int 2 time, bool ty, f,
+      envelope tt id (.cons 1 3 [octet base, int 10 scope, int 10 deref, int 2 size, int 2 time, bool tt ty, f,
         seq (attrs.map octet)]) ctls
-  | .extended id name => envelope id (.cons 1 23 [.prim 2 0 name]) []
-  | .modify id dn chs ctls => envelope id (.cons 1 6 [octet dn, seq (chs.map encodeChange)]) ctls
-  | .add id dn attrs ctls => envelope id (.cons 1 8 [octet dn, seq (attrs.map encodeAttr)]) ctls
-  | .delete id dn ctls => envelope id (.prim 1 10 dn) ctls
-  | .unbind id => envelope id (.prim 1 2 []) []
+  | .extended id name => envelope tt id (.cons 1 23 [.prim 2 0 name]) []
+  | .modify id dn chs ctls => envelope tt id (.cons 1 6 [octet dn, seq (chs.map encodeChange)]) ctls
+  | .add id dn attrs ctls => envelope tt id (.cons 1 8 [octet dn, seq (attrs.map encodeAttr)]) ctls
+  | .delete id dn ctls => envelope tt id (.prim 1 10 dn) ctls
+  | .unbind id => envelope tt id (.prim 1 2 []) []
 
 /-- the BER octet-string wrapping `ConvertString` inverts -/
 def wrap (v : Bytes) : Bytes := ser (octet v)
